@@ -614,7 +614,7 @@ func main() {
 	}
 	h.m = m
 	defer m.close()
-	h.res.Rule = "per group (k256, BLS12-381 G1; thorough also P-256) and boundary variant (witness random/1/q-1/0) one statement-witness pair of every protocol " +
+	h.res.Rule = "per group (k256, BLS12-381 G1; thorough: k256 x3, BLS x2, P-256 x1 variants) and boundary variant (witness random/1/q-1/0) one statement-witness pair of every protocol " +
 		"(Schnorr, Okamoto, batch Schnorr k=3, ElGamal opening, dlog-with-ElGamal, AND of 2 Schnorr, OR of 3 Schnorr with one witness; Paillier n-th root with a cached modulus, ring-Pedersen prm with a tiny key) x every compiler " +
 		"(Fiat-Shamir, Fischlin, randomised Fischlin): prove in a random context (session seed, 0-2 caller appends, prover id), verify in the same and in 10 changed contexts, " +
 		"flip bytes of the proof (every byte for Fiat-Shamir proofs; first/last 16 + a sample for the long Fischlin proofs in the quick tier), structural changes, forged proofs; " +
@@ -628,7 +628,7 @@ func main() {
 	flipBudget := 32
 	if h.thorough {
 		variants = 3
-		flipBudget = 200
+		flipBudget = 100
 	}
 	if a.Search {
 		variants = 4
@@ -636,8 +636,10 @@ func main() {
 	}
 	for v := 0; v < variants; v++ {
 		h.group("k256", v, flipBudget)
-		h.group("bls12381g1", v, flipBudget)
-		if h.thorough || a.Search {
+		if !h.thorough || v < 2 {
+			h.group("bls12381g1", v, flipBudget)
+		}
+		if (h.thorough && v == 0) || a.Search {
 			h.group("p256", v, flipBudget)
 		}
 	}
@@ -672,7 +674,8 @@ func (h *harness) group(gname string, variant int, flipBudget int) {
 			if !h.selected(c.id, comp, gname, variant) {
 				continue
 			}
-			flipAll := (comp == fiatshamir.Name && (h.thorough || (gname == "k256" && variant == 0))) || (h.thorough && variant == 0 && gname == "k256")
+			flipAll := (comp == fiatshamir.Name && (h.thorough || (gname == "k256" && variant == 0))) ||
+				(h.thorough && variant == 0 && gname == "k256" && strings.HasPrefix(c.id, "schnorr/"))
 			t0 := time.Now()
 			h.niCase(c, comp, variant, r, flipAll, flipBudget)
 			if os.Getenv("C08_TIMING") != "" {
